@@ -1,0 +1,8 @@
+//go:build verif
+
+package archiver
+
+import "github.com/internetarchive/Zeno/internal/pkg/archiver/ratelimiter"
+
+// VerifBucketManager returns the archiver's rate-limiter manager (nil when the limiter is off).
+func VerifBucketManager() *ratelimiter.BucketManager { return globalBucketManager }
